@@ -325,7 +325,8 @@ func aggregateRows(selectList sql.SelectList, groupBy []sql.ColumnReference, row
 		var key string
 		for _, groupByCol := range groupBy {
 			idx := colToIdx[groupByCol]
-			key += fmt.Sprintf("%v", row.Vals[idx])
+			// %#v quotes strings, so the comma separated key is unambiguous
+			key += fmt.Sprintf("%#v,", row.Vals[idx])
 		}
 		return key
 	}
